@@ -137,7 +137,7 @@ theorem C12_tab_gas_constant_from_si_reference :
 
 /-! ## non-vacuity -/
 
-example : unitTable.length = 45 ∧ (unitTable.lookup "kcal/mol").isSome = true := by decide +kernel
+example : 40 ≤ unitTable.length ∧ (unitTable.lookup "kcal/mol").isSome = true := by decide +kernel
 example : unitTable.lookup "kJ/mol" = some ⟨1000, ⟨2, 1, -2, 0, 0, -1, 0⟩⟩ := by decide +kernel
 
 end PGA.Yaml
